@@ -3,6 +3,8 @@ CONSTANTS
   Family = "M3"
   RndN = 5
   RndK = 8
+  Grows = TRUE
 INVARIANT EquivOnADMG
 INVARIANT SigmaLaws
+PROPERTY GrowAntiMonotone
 CHECK_DEADLOCK FALSE
